@@ -62,6 +62,7 @@ pub enum K {
     SnapToRc,
     WSnapToWeak,
     Quiesce,
+    NewChain,
 }
 
 pub const ALL_KINDS: &[K] = &[
@@ -115,6 +116,7 @@ pub const ALL_KINDS: &[K] = &[
     K::SnapToRc,
     K::WSnapToWeak,
     K::Quiesce,
+    K::NewChain,
 ];
 
 /// One API call. Operands index whatever is live when the op executes: scaled
@@ -774,6 +776,36 @@ impl Th {
                 self.register(circ::verif::rc_word(&rc), p);
                 self.log(desc);
                 self.put_rc(rc, "new");
+                true
+            }
+            K::NewChain => {
+                // a chain of 2*(a+1) fresh nodes linked through edge 0 (unstamped links), the head
+                // lands in an Rc slot; long chains make a disposal span several re-pins
+                let len = 2 * (op.a as usize + 1);
+                let mut next: Option<Rc<VNode>> = None;
+                let mut next_rank = 900_000u32;
+                let mut head_id = 0;
+                for _ in 0..len {
+                    let id = with(|s| s.reserve()) as u32;
+                    let node = VNode {
+                        id,
+                        rank: next_rank - 1,
+                        val: 0x7000_0000u64 + id as u64,
+                        canary: CANARY ^ id as u64,
+                        edges: [next.take().map(AtomicRc::from).unwrap_or_else(AtomicRc::null), AtomicRc::null()],
+                        wedge: AtomicWeak::null(),
+                        pop_mask: 3,
+                        dact: 0,
+                    };
+                    next_rank -= 1;
+                    let rc = Rc::new(node);
+                    let p = rc.as_ref().unwrap() as *const VNode;
+                    self.register(circ::verif::rc_word(&rc), p);
+                    head_id = id;
+                    next = Some(rc);
+                }
+                self.log(format!("new_chain(head obj{}, {} nodes)", head_id, len));
+                self.put_rc(next.unwrap(), "new");
                 true
             }
             K::NewMany2 | K::NewMany3 => {
